@@ -117,6 +117,17 @@ Definition layout_equiv (a b : layout) : Prop :=
   opt_rel point_equiv (l_origin a) (l_origin b) /\ opt_rel stretch_equiv (l_extent a) (l_extent b)
   /\ opt_rel padding_equiv (l_padding a) (l_padding b) /\ opt_rel alignment_equiv (l_alignment a) (l_alignment b).
 
+Definition gval_equiv (a b : gval) : Prop :=
+  match a, b with
+  | GSize x, GSize y => size_equiv x y
+  | GPoint x, GPoint y => point_equiv x y
+  | GStretch x, GStretch y => stretch_equiv x y
+  | GPadding x, GPadding y => padding_equiv x y
+  | GAlign x, GAlign y => alignment_equiv x y
+  | GLayout x, GLayout y => layout_equiv x y
+  | _, _ => False
+  end.
+
 (* obs: (a == b, a != b, hash a == hash b) *)
 Definition ok_eq (a b : layout) (eq ne hash_eq : bool) : bool :=
   Bool.eqb eq (spec_layout_eq a b) && Bool.eqb ne (negb eq) && (negb eq || hash_eq).
